@@ -27,7 +27,8 @@ FLOORS = {'order_comparisons': 600, 'nontrivial_layers': 150,
           'list_par_runs': 30, 'list_subset_runs': 10,
           'hostile_rng_runs': 40, 'hostile_rng_yields': 400,
           'multi_directory_worlds': 30, 'other_hashseed_runs': 60,
-          'shuffle_contract_evals': 300}
+          'shuffle_contract_evals': 300,
+          'worlds_with_parametrised_instances': 20}
 BATCH_TIMEOUT = 400
 
 PYTHONS = ['/root/.pyenv/versions/3.9.18/bin/python',
@@ -51,13 +52,16 @@ def cases(tier, seed):
     return out
 
 
-def orders(events, model):
+def orders(events, model, mult=None):
+    """Per layer the ids in execution order (an id once - unless the world
+    has parametrised cases: equal instances sharing an id, mult[id] of
+    them)."""
     per = {}
     for e in events:
         if e['k'] == 'test.setUp':
             L = model.layer_of_test.get(e['id'])
             lst = per.setdefault(L, [])
-            if e['id'] not in lst:
+            if e['id'] not in lst or (mult and e['id'] in mult):
                 lst.append(e['id'])
     return per
 
@@ -112,10 +116,25 @@ def run_case(case):
                     'suite': {'t': 'suite', 'ch': nodes}})
                 xpath.append('dir-%s' % d)
         spec['modules'] = mods
+    # the classic parametrised test case in a quarter of the worlds: two or
+    # three instances of one class for every method - equal to one another,
+    # same id(), told apart by str() only; each is a test of its own
+    mult = {}
+    if not multidir and rng.random() < 0.25:
+        cands = [(m, node) for m in spec['modules']
+                 for node in m['suite']['ch']
+                 if node['t'] == 'class' and node['tests']]
+        if cands:
+            m, node = rng.choice(cands)
+            node['params'] = rng.choice([['a', 'b'], ['a', 'b', 'c']])
+            for ts in node['tests']:
+                mult['%s.%s.%s' % (m['name'], node['name'], ts['name'])] = \
+                    len(node['params'])
     model = oracles.LayerModel(spec)
     disc = {}
     for lname, tids in vworld.expected_tests(spec, {}).items():
-        disc[model.short(lname)] = tids
+        disc[model.short(lname)] = [t for t in tids
+                                    for _ in range(mult.get(t, 1))]
     viol = []
     counters = {}
 
@@ -126,6 +145,8 @@ def run_case(case):
         if len(viol) < 8:
             viol.append({'rule': rule, 'mech': mech, 'detail': d})
 
+    if mult:
+        C('worlds_with_parametrised_instances')
     root = vworld.materialise(spec)
     if xpath:
         C('multi_directory_worlds')
@@ -165,7 +186,7 @@ def run_case(case):
               got=rep_seed)
         if seed is None:
             C('reported_seed_reruns')
-        ref = orders(w0.events, model)
+        ref = orders(w0.events, model, mult)
         # permutation inside each layer
         for L, tids in disc.items():
             got = ref.get(L, [])
@@ -197,7 +218,7 @@ def run_case(case):
                     got[model.short(lname)] = [vworld.id_from_str(s)
                                                for s in tl]
             else:
-                got = orders(w.events, model)
+                got = orders(w.events, model, mult)
             for L, tids in ref.items():
                 if only is not None and L not in only:
                     if got.get(L):
@@ -219,7 +240,7 @@ def run_case(case):
                                                'processes': N}, root=root)
             C('clock_seed_par_runs')
             if wj.raised is None:
-                gotj = orders(wj.events, model)
+                gotj = orders(wj.events, model, mult)
                 for blk in wj.info['layers']:
                     L = model.short(blk['name'])
                     if len(gotj.get(L, [])) < 3:
@@ -237,11 +258,11 @@ def run_case(case):
                         spec, None, {'shuffle_seed': m, 'layer': [pat]},
                         root=root)
                     if wr2.raised is None and \
-                            orders(wr2.events, model).get(L) != gotj[L]:
+                            orders(wr2.events, model, mult).get(L) != gotj[L]:
                         V('reported-seed-does-not-reproduce-the-order',
                           'shuffle-order-reported-seed', layer=L, seed=m,
                           ran=gotj[L][:8],
-                          rerun=orders(wr2.events, model).get(L, [])[:8])
+                          rerun=orders(wr2.events, model, mult).get(L, [])[:8])
                     break
         sopts = {'shuffle_seed': rep_seed}
         # same seed again, sequential
